@@ -17,6 +17,7 @@ from .values import (
     JSArray,
     JSFunction,
     JSRegExp,
+    JSTypedArray,
     JSBoundMethod,
     to_string,
     to_number,
@@ -230,9 +231,9 @@ class Context:
             return vm._get_property(obj, key) if vm is not None else obj.get(key)
 
         def own_keys(obj):
-            """Own enumerable keys; the elements of an array come first."""
-            if isinstance(obj, JSArray):
-                return [str(i) for i in range(len(obj._elements))] + obj.keys()
+            """Own enumerable keys; the elements of a (typed) array come first."""
+            if isinstance(obj, (JSArray, JSTypedArray)):
+                return [str(i) for i in range(obj.length)] + obj.keys()
             return obj.keys()
 
         def new_array(elements):
